@@ -354,3 +354,53 @@ def parser_total_rule(ctx, I: Interp, rule: str) -> int:
         ctx.check(not raises, rule, f"OperandsParser._process_operand_elem[{label}]", f"raises {','.join(raises)} on {tpl.render()}"[:160],
                   f"the operand {tpl.render()} (printed by objdump) does not make the parser fail")
     return n
+
+
+# ------------------------------------------------------------------ thorough tier: the product of operand forms, tails, indentations
+def _operand_forms(i: int) -> List[Tuple[str, List[Any], str]]:
+    """(label, template parts, expected normal form) of every operand form, with tokens numbered by operand position i"""
+    A, B, C, K, V, R = H(f"A{i}", "reg"), H(f"B{i}", "reg"), H(f"C{i}", "dec"), H(f"K{i}", "num"), H(f"V{i}", "num"), H(f"R{i}", "reg")
+    return [
+        ("$v", ["$", V], f"<V{i}>"),
+        ("%r", ["%", R], f"%<R{i}>"),
+        ("k(a,b,c)", [K, "(%", A, ",%", B, ",", C, ")"], f"[%<A{i}>+%<B{i}>*<C{i}>+<K{i}>]"),
+        ("(a,b,c)", ["(%", A, ",%", B, ",", C, ")"], f"[%<A{i}>+%<B{i}>*<C{i}>]"),
+        ("k(,b,c)", [K, "(,%", B, ",", C, ")"], f"[+%<B{i}>*<C{i}>+<K{i}>]"),
+        ("k(a)", [K, "(%", A, ")"], f"[%<A{i}>+<K{i}>]"),
+        ("(a)", ["(%", A, ")"], f"[%<A{i}>]"),
+        ("(,b,c)", ["(,%", B, ",", C, ")"], f"[+%<B{i}>*<C{i}>]"),
+        ("(a,b)", ["(%", A, ",%", B, ")"], f"[%<A{i}>+%<B{i}>]"),
+        ("k(a,b)", [K, "(%", A, ",%", B, ")"], f"[%<A{i}>+%<B{i}>+<K{i}>]"),
+    ]
+
+
+def thorough_lines() -> List[Tuple[str, Str, str]]:
+    """every operand list of one, two or three operand forms x tail (none, # comment, <symbol>) x indentation"""
+    import itertools
+    AD, MN, TG, SY = H("ADDR", "hex"), H("MN", "reg"), H("TGT", "hex"), H("SYM", "sym")
+    tails = [("", []), (" # comment", ["        # ", TG, " <", SY, ">"]), (" <symbol>", [" <", SY, "+0x", H("OFF", "hex"), ">"])]
+    out = []
+    for n in (1, 2, 3):
+        pools = [_operand_forms(i) for i in range(n)]
+        if n == 3:
+            pools = [p[:7:2] for p in pools]      # 4 forms per position for triples
+        for combo in itertools.product(*pools):
+            parts: List[Any] = []
+            for j, (_, tp, _) in enumerate(combo):
+                parts += ([","] if j else []) + tp
+            expect = "<ADDR>::<MN>," + ",".join(e for _, _, e in combo)
+            for tl, tparts in tails:
+                for ind in ("  ", ""):
+                    label = "+".join(l for l, _, _ in combo) + tl + (" (no indent)" if not ind else "")
+                    out.append((label, T(ind, AD, ":\t", BYTES[2], "\t", MN, "    ", *parts, *tparts), expect))
+    return out
+
+
+def thorough_line_rule(ctx, I: Interp, rule: str) -> int:
+    n = 0
+    for label, tpl, expect in thorough_lines():
+        outs = parse_line(I, tpl)
+        n += 1
+        ctx.check(outs == [("instruction", expect)], rule, f"LineParser.parse[{label}]", f"{tpl.render()!r} gives {outs}"[:240],
+                  f"the line yields exactly one instruction whose record is {expect}")
+    return n
